@@ -727,6 +727,39 @@ def clause_relative_cp(ctx):
              if isinstance(c, ast.Call) and call_name(c) == "self.fit"]
     ctx.check(len(after) >= 1, lp, "fit after anchoring",
               "the anchored interval of the last pass is never fitted")
+    # re-anchoring: between the fit of one pass and the interval of the
+    # next, the contact point is read again from the fitted parameters
+    cfg = L.cfg
+    an = cfg.node_of_stmt(a)
+    fit_nodes = [n for n in cfg.nodes if n.kind == "stmt" and any(
+        x is n.ast for s in lp.body for x in ast.walk(s)) and any(
+        call_name(c) == "self.fit" for c in fitrules.node_calls(n))]
+    reads = {n.id for n in cfg.nodes if n.kind == "stmt" and isinstance(
+        n.ast, ast.Assign) and any(x is n.ast for s in lp.body
+                                   for x in ast.walk(s))
+        and "self.fp['params_fitted']['contact_point']" in norm(n.ast.value)}
+    if cp in norm(a.value) and not reads:
+        # the interval expression reads the fitted value directly
+        reads = {an.id} if an is not None else set()
+    stale = False
+    if an is not None and fit_nodes and n_iter and n_iter > 1:
+        for fnode in fit_nodes:
+            r_ = cfg.reach([fnode.id], avoid=reads, skip_labels=("exc",))
+            if an.id in r_ and an.id not in reads:
+                stale = True
+    ctx.check(not stale, a, "every pass is anchored at the contact point of "
+              "the previous pass",
+              "the passes after the first are anchored at a contact point "
+              "that is not re-read after the previous pass was fitted: all "
+              "passes use the estimate of the full-segment fit, the final "
+              "interval is not [cp+a, cp+b] of the fitted contact point")
+
+
+def _is_grid(R, e):
+    """e is the np.linspace(...) grid itself (not a filtered/sliced view)"""
+    r = R.resolve(e)
+    return isinstance(r, ast.Call) and call_name(r) in ("np.linspace",
+                                                        "numpy.linspace")
 
 
 def clause_plateau_scan(ctx):
@@ -767,7 +800,7 @@ def clause_plateau_scan(ctx):
           and isinstance(s.value, ast.Call)
           and call_name(s.value) in ("np.zeros_like", "np.empty_like",
                                      "np.full_like")
-          and R.text(s.value.args[0]).startswith("np.linspace(")]
+          and _is_grid(R, s.value.args[0])]
     ctx.check(len(em) == 1, fn, "modulus array shaped like the depth grid",
               "the modulus array does not have the shape of the depth grid")
     # the loop: range_x = [grid[i], xmax]; fit; emoduli[i] = E
@@ -775,9 +808,11 @@ def clause_plateau_scan(ctx):
     ctx.floor("scan loop", len(loops), 1)
     lp = loops[0]
     ok_iter = isinstance(lp.iter, ast.Call) and call_name(lp.iter) == \
-        "enumerate" and R.text(lp.iter.args[0]).startswith("np.linspace(")
-    ctx.check(ok_iter, lp, "loop enumerates the depth grid",
-              "the scan loop does not enumerate the depth grid")
+        "enumerate" and _is_grid(R, lp.iter.args[0])
+    ctx.check(ok_iter, lp, "loop enumerates the whole depth grid",
+              "the scan loop does not enumerate the depth grid as it comes "
+              "from np.linspace (a filtered or sliced grid no longer has "
+              "the requested number of samples)")
     ra = [s for s in lp.body if isinstance(s, ast.Assign)
           and norm(s.targets[0]) == "self.range_x"]
     if ra and isinstance(ra[0].value, (ast.List, ast.Tuple)) and len(
@@ -810,9 +845,10 @@ def clause_plateau_scan(ctx):
     ctx.check(len(fits) == 1, lp, "one fit per grid depth",
               f"{len(fits)} fits per grid depth")
     rets = [r for r in walk_no_nested(fn, False) if isinstance(r, ast.Return)]
-    ok = bool(rets) and isinstance(rets[-1].value, ast.Tuple) and [
-        R.text(e)[:12] for e in rets[-1].value.elts] == [
-            "np.zeros_lik", "np.linspace("]
+    ok = bool(rets) and isinstance(rets[-1].value, ast.Tuple) and len(
+        rets[-1].value.elts) == 2 and R.text(
+            rets[-1].value.elts[0])[:12] == "np.zeros_lik" and _is_grid(
+                R, rets[-1].value.elts[1])
     ctx.check(ok, fn, "returns (moduli, depths)",
               "the scan does not return (moduli, depths) in this order")
     # plateau selection returns a value inside the scanned depths
@@ -1066,6 +1102,30 @@ def clause_residual_shape(ctx):
     ctx.analysed(wf)
     R2 = Resolver(wf)
     rets = [r for r in walk_no_nested(wf, False) if isinstance(r, ast.Return)]
+    # early returns that do not go through the distance formula
+    wparams = [a.arg for a in wf.args.args]
+    early = [r for r in rets[:-1]] if len(rets) > 1 else []
+    for r in early:
+        conds = conditions_at(r)
+        names = {n.id for a in conds for n in ast.walk(a.node)
+                 if isinstance(n, ast.Name)}
+        data_dep = names & set(wparams[:2])      # cp, delta
+        uses_dist = len(wparams) > 2 and wparams[2] in names
+        # (a shortcut chosen without looking at the weighting distance
+        # cannot agree with min(|delta - cp| / dist, 1) for every dist)
+        if data_dep and not uses_dist:
+            ctx.fail(r, f"early return {norm(r)[:40]} of the weights",
+                     f"compute_contact_point_weights returns "
+                     f"`{norm(r.value)[:40]}` on a path selected by "
+                     f"{sorted(data_dep)} without computing min(|delta - "
+                     f"cp| / weight_dist, 1): points closer to the contact "
+                     f"point than the weighting distance keep the full "
+                     f"weight there, the residuals are no longer (data - "
+                     f"model) x weights")
+        else:
+            raise Undecided("weights function has an early return that "
+                            "does not depend on the data")
+    rets = rets[-1:]
     if len(rets) != 1 or not isinstance(rets[0].value, ast.Name):
         raise Undecided("weights function does not return a single local")
     xv = rets[0].value.id
